@@ -152,6 +152,8 @@ func c01Concretise(v *c01Vec, uniq string, rng *rand.Rand) []c01Conc {
 					b = []byte(sz + "g\r\n" + string(cd) + "\r\n")
 				case "nocrlf":
 					b = []byte(sz + "\r\n" + string(cd))
+				case "badterm":
+					b = []byte(sz + "\r\n" + string(cd) + "XY")
 				case "lfext":
 					b = []byte(sz + ";a\nb\r\n" + string(cd) + "\r\n")
 				case "barelf":
